@@ -31,11 +31,11 @@ TOL_VOX = F(10e-8)                                   # default padding of the vo
 BAND = F(1, 2 ** 50)
 
 PARTIAL = [
-    "convexHull_correct (every input point is left-of-or-on every hull edge; strict convexity at the two junctions of lower and upper chain; minimality): proved are hull ⊆ input (convexHull_correct_partial) and that the lower and the upper chain are chains of strict left turns (convexHull_chains_turn_left_partial); the rest is checked by the exact oracle on every generated point set",
-    "wnPoly_convex (for a convex counter-clockwise polygon and an off-boundary point the test is true iff the point is strictly left of every edge) and the general 'wn_poly = inside for simple polygons' are not proved; proved are translation invariance, cyclic-shift invariance, negation under reversal and the per-edge crossing rule; inside/outside is checked against an independent crossing-number test by the oracle",
+    "convex hull: PROVED for every finite point list (duplicates and collinear points included): hull vertices are input points, pairwise distinct, every input point is left-of-or-on every edge of the closed hull polygon, and with >= 3 vertices all cyclically consecutive triples turn strictly left (convexHull_correct; Andrew's invariant of one scan: halfHull_invariant / ScanInv.step); not stated separately: minimality as 'no proper sub-polygon contains the points' (it follows from subset + strict convexity + distinctness)",
+    "wn_poly: PROVED: counter >= 1 for a point strictly left of every edge of any closed polygon (wnNum_inside_ge_one), counter = 0 when a line separates the point from all vertices (wnNum_separated_zero), hence for a strictly convex ccw polygon and a point off the boundary wn_poly is True iff the point is strictly left of every edge (wnPoly_convex), also on the output of convex_hull (wnPoly_convexHull). the counter is exactly 1 / 0 there (wnNum_convex_value, wnNum_convexHull_interior). NOT proved: 'wn_poly = inside' for arbitrary simple (non-convex) polygons; it is checked against an independent crossing-number test by the oracle",
     "findCtrlpts_exact (inside a span every returned control point has a non-zero basis function: strict positivity of A2.2) is not proved; proved: returned indices are span-p..span and every non-zero Cox-de Boor function has its index there (parameter in the half-open domain [U_p, U_n); the closed end u = U_n is covered by the oracle only)",
     "ray: the status / coincidence theorems assume the exact square root (m*m = |d1 x d2|^2) and compare squared distances; the effect of the rounded sqrt (points differ by rounding, hence the tolerance) is only observed by the correspondence / oracle",
-    "voxelize: the model takes the bounding box and the evaluated points of the object as inputs (surface evaluation is C01, bounding box C18); termination of frange is proved under an explicit bound N with stop - start <= N*step + step/2 (and for Archimedean fields)",
+    "voxelize: the model takes the bounding box and the evaluated points of the object as inputs (surface evaluation is C01, bounding box C18); termination of frange is proved under an explicit bound N with stop - start <= N*step + step/2 (and for Archimedean fields); the exact value list of frange for an arbitrary stop value is frange_values",
     "F-20a: generate_voxel_grid(use_cubes=True) on a flat bounding box does not terminate (voxelGrid_cubes_flat_refutes_termination); coverage theorems therefore assume the grid was returned",
 ]
 ASSUMPTIONS = [
